@@ -273,6 +273,8 @@ class Fixture:
         else:
             raise AssertionError(kind)
         self.root = m
+        self.raw_owner = owner if kind.startswith('meta-') else m
+        self.raw_name = next((nm for nm in dir(type(self.raw_owner)) if nm.startswith('raw_') and getattr(self.raw_owner, nm, None) is self.raw), None)
         self.ids = {}          # id(obj) -> small int
         self.keep = []         # keeps every object alive (so id() is never reused)
         self.next_id = 1
@@ -605,7 +607,12 @@ def apply_op(fx: Fixture, op, rng=None) -> Step:
         elif name == 'append':
             target.append(real[0])
         elif name == 'extend':
-            target.extend(iter(real))
+            if op.get('iadd') and vd is None and fx.raw_name:
+                # `model.raw_x += [...]`: extends in place, then assigns the result back through the property
+                setattr(fx.raw_owner, fx.raw_name, getattr(fx.raw_owner, fx.raw_name).__iadd__(list(real)))
+                fx.raw = getattr(fx.raw_owner, fx.raw_name)
+            else:
+                target.extend(iter(real))
         elif name == 'clear':
             target.clear()
         elif name == 'pop':
@@ -1007,6 +1014,8 @@ def gen_op(rng, fx: Fixture, ids, allow_errors=True):
         op['vals'] = fresh_vals(1)
     elif name == 'extend':
         op['vals'] = fresh_vals(rng.choice([0, 1, 2, 3]))
+        if vd is None and rng.random() < 0.4:
+            op['iadd'] = True
         if vd is None and allow_errors and rng.random() < 0.06:
             op['reuse'] = rng.randrange(0, 8)
             op['reuse_at'] = rng.randrange(0, 3)
